@@ -58,13 +58,12 @@ class LiteIdentityKeyStore(IdentityKeyStore):
         self.dbConn.commit()
 
     def saveIdentity(self, recipientId, identityKey):
+        # delete and insert in ONE transaction: a crash in between must not lose the pinned identity
         q = "DELETE FROM identities WHERE recipient_id=?"
-        self.dbConn.cursor().execute(q, (recipientId,))
-        self.dbConn.commit()
-
+        c = self.dbConn.cursor()
+        c.execute(q, (recipientId,))
 
         q = "INSERT INTO identities (recipient_id, public_key) VALUES(?, ?)"
-        c = self.dbConn.cursor()
 
         pubKey = identityKey.getPublicKey().serialize()
         c.execute(q, (recipientId, buffer(pubKey) if sys.version_info < (2,7) else pubKey))
